@@ -1021,6 +1021,7 @@ LEVEL_NOTE = ('trusted: Dask\'s overlap/trim/concatenate semantics as transcribe
               'output each run), the ast facts translator, NaN-absorption of IEEE arithmetic/libm, NumPy primitives '
               '(nanmean, gradient, vectorised trig); no Coq axioms')
 KEY_EI = 'equal_interval-dask-typeerror'
+KEY_META = 'dask-meta-dtype'
 
 _PLANS = None
 
@@ -1289,7 +1290,28 @@ def gen_case(rng, fn, H=None, W=None, style=None, sched=None):
 
 
 # ------------------------------------------------------------------ running the implementation
+def _relayout(a, how):
+    """the same logical values in another memory layout (theme: memory layout of every array argument)"""
+    if how == 'F':
+        return np.asfortranarray(a)
+    if how == 'T':
+        return np.ascontiguousarray(a.T).T
+    if how == 'strided':
+        big = np.zeros((a.shape[0] * 2, a.shape[1] * 3), dtype=a.dtype)
+        big[::2, ::3] = a
+        return big[::2, ::3]
+    if how == 'reversed':
+        return np.ascontiguousarray(a[::-1, ::-1])[::-1, ::-1]
+    if how == 'ro':
+        b = a.copy()
+        b.setflags(write=False)
+        return b
+    return a
+
+
 def _arr(vals, dtype):
+    if dtype not in FLT_DT and all(isinstance(v, int) and not isinstance(v, bool) for row in vals for v in row):
+        return np.array(vals, dtype=dtype)          # exact (values above 2**53 survive)
     a = np.array([[float(v) for v in row] for row in vals], dtype='float64')
     if dtype in FLT_DT:
         return a.astype(dtype)
@@ -1307,8 +1329,10 @@ def _mk(a, case, chunks=None):
     dy, dx = lay['dims']
     coords = {}
     if lay['coords']:
-        ys = np.arange(H) * csy
-        coords = {dy: ys[::-1].copy() if lay['desc'] else ys, dx: np.arange(W) * csx}
+        co = case.get('coord') or {}
+        ys = co.get('oy', 0.0) + np.arange(H) * csy
+        xs = co.get('ox', 0.0) + np.arange(W) * csx
+        coords = {dy: ys[::-1].copy() if lay['desc'] else ys, dx: xs[::-1].copy() if co.get('desc_x') else xs}
     if lay['scalar']:
         coords['band'] = 1
         coords['spatial_ref'] = 0
@@ -1327,8 +1351,25 @@ def make_bands(case, dask_backed):
             a = np.zeros((case['H'], case['W']), dtype=dt)
         else:
             a = _arr(case[key], dt)
+        a = _relayout(a, (case.get('memlayout') or {}).get(key))
         out[key] = _mk(a, case, case[ck] if dask_backed else None)
     return out
+
+
+def pconv(case, lst):
+    """list-valued parameters as python floats (default), python ints, tuples, or numpy arrays of another dtype"""
+    how = case.get('param_as')
+    if how == 'pyint' and all(float(v) == int(v) for v in lst if v == v and abs(v) != float('inf')) and \
+            all(v == v and abs(v) != float('inf') for v in lst):
+        return [int(v) for v in lst]
+    if how == 'tuple':
+        return tuple(lst)
+    if how in ('int32', 'int64', 'uint8') and all(v == v and abs(v) != float('inf') and float(v) == int(v) and
+                                                  (how != 'uint8' or 0 <= v < 256) for v in lst):
+        return np.array(lst, dtype=how)
+    if how in ('float32', 'float64'):
+        return np.array(lst, dtype=how)
+    return list(lst)
 
 
 def call_fn(case, dask_backed, bands=None):
@@ -1355,7 +1396,7 @@ def call_fn(case, dask_backed, bands=None):
             return focal.mean(r, passes=case['passes'], excludes=list(case['excludes']))
         return focal.mean(r, passes=case['passes'])
     if fn in KERNELLED:
-        k = np.array(case['kernel'], dtype='float64')
+        k = np.array(case['kernel'], dtype=case.get('kernel_dtype', 'float64'))
         if fn == 'convolution_2d':
             return convolution.convolution_2d(r, k)
         if fn == 'apply':
@@ -1364,9 +1405,9 @@ def call_fn(case, dask_backed, bands=None):
             return focal.focal_stats(r, k, stats_funcs=list(case['stats']))
         return focal.hotspots(r, k)
     if fn == 'binary':
-        return classify.binary(r, list(case['values']))
+        return classify.binary(r, pconv(case, case['values']))
     if fn == 'reclassify':
-        return classify.reclassify(r, bins=list(case['bins']), new_values=list(case['new_values']))
+        return classify.reclassify(r, bins=pconv(case, case['bins']), new_values=pconv(case, case['new_values']))
     if fn == 'equal_interval':
         return classify.equal_interval(r, k=case['k'])
     if fn == 'evi' and case.get('evi_params'):
@@ -1407,7 +1448,7 @@ def run_both(case):
             isd = None
             try:
                 res = call_fn(case, True)
-                isd = isinstance(res.data, da.Array)
+                isd = ('dask', str(res.data.dtype)) if isinstance(res.data, da.Array) else False
                 if isd:
                     if case['sched'] == 'synchronous':
                         rd = res.data.compute(scheduler='synchronous')
@@ -1472,6 +1513,12 @@ def oracle(ctx, case, rn, rd, isd):
     if rn.shape != rd.shape:
         ctx.violation('oracle', '%s: shapes differ: numpy %s dask %s' % (what, rn.shape, rd.shape), case)
         return False
+    if isinstance(isd, tuple) and isd[1] != str(rd.dtype) and fn not in ('perlin', 'generate_terrain'):
+        # "the result stays Dask-backed until computed": what it advertises while lazy must be what it computes to.
+        # Recorded, but the value comparison below still runs and decides the return value.
+        ctx.violation('oracle', '%s: the lazy result advertises dtype %s but computes to %s (NumPy backend: %s) — a following '
+                      'dtype-dependent step (astype, mean(...), where) then works in the wrong precision' % (
+                          what, isd[1], rd.dtype, rn.dtype), dict(case, declared=isd[1], computed=str(rd.dtype)), key=KEY_META)
     if fn in ('perlin', 'generate_terrain'):
         scale = 1.0 if fn == 'perlin' else float(abs(case['zfactor']))
         # the NumPy path stores and normalises in the TEMPLATE dtype (float16 / float32 / float64), the Dask path in
@@ -1877,6 +1924,367 @@ def threshold_stream(ctx, rng, quick):
             explore(ctx, c, None)
 
 
+# ------------------------------------------------------------------ theme audit stream (appended after all others)
+SINGLE_FNS = SURFACE + ['mean'] + KERNELLED + ['binary', 'reclassify', 'equal_interval']
+
+
+def _snapshot(bands):
+    out = {}
+    for k, b in bands.items():
+        out[k] = (np.asarray(b.data).copy(), {c: np.asarray(v.values).copy() for c, v in b.coords.items()}, dict(b.attrs),
+                  str(b.dtype), tuple(b.dims))
+    return out
+
+
+def _unchanged(snap, bands):
+    for k, b in bands.items():
+        d0, c0, a0, dt0, dims0 = snap[k]
+        d1 = np.asarray(b.data)
+        if str(b.dtype) != dt0 or tuple(b.dims) != dims0 or d1.shape != d0.shape or \
+                not np.array_equal(d0, d1, equal_nan=(d0.dtype.kind == 'f')):
+            return '%s: values/dtype/dims of the input changed' % k
+        if set(b.coords) != set(c0) or any(not np.array_equal(c0[c], np.asarray(b.coords[c].values)) for c in c0):
+            return '%s: coordinates of the input changed' % k
+        if dict(b.attrs) != a0:
+            return '%s: attrs of the input changed (%r -> %r)' % (k, a0, dict(b.attrs))
+    return None
+
+
+def _derive(b, how):
+    """a raster derived from an already-processed one"""
+    dy, dx = b.dims
+    if how == 'slice':
+        return b.isel({dy: slice(1, None), dx: slice(0, -1)})
+    if how == 'step':
+        return b.isel({dy: slice(None, None, 2), dx: slice(None, None, 2)})     # attrs['res'] goes stale on purpose
+    if how == 'copy':
+        return b.copy(deep=True)
+    if how == 'astype':
+        return b.astype('float32')
+    if how == 'assign':
+        if dx in b.coords:
+            return b.assign_coords({dx: b.coords[dx].values + 1000.0})
+        return b.copy()
+    if how == 'attrs':
+        c = b.copy()
+        c.attrs = dict(b.attrs, note='derived', res=b.attrs.get('res', (1.0, 1.0)))
+        return c
+    return b
+
+
+def run_sequence(case):
+    """call sequences on ONE set of rasters per backend.  -> list of (label, numpy result|exc, dask result|exc, isd),
+    and a message if an input was modified"""
+    import dask
+    import dask.array as da
+    import warnings
+    seq = case['seq']
+    res = []
+    msg = None
+    comp = (lambda x: x.compute(scheduler='synchronous')) if case['sched'] == 'synchronous' else \
+        (lambda x: x.compute(scheduler='threads', num_workers=case['workers']))
+
+    def guard(f):
+        try:
+            return f()
+        except Exception as e:   # noqa
+            return e
+
+    def fin(l):
+        if isinstance(l, Exception):
+            return l, None
+        if isinstance(l.data, da.Array):
+            return guard(lambda: comp(l.data)), ('dask', str(l.data.dtype))
+        return np.asarray(l.data), False
+    with warnings.catch_warnings():
+        warnings.simplefilter('ignore')
+        with np.errstate(all='ignore'):
+            nb_ = make_bands(case, False)
+            db_ = make_bands(case, True)
+            snap_n, snap_d = _snapshot(nb_), _snapshot({k: v.compute() for k, v in db_.items()})
+            other = dict(case, **case.get('other', {}))
+            if seq == 'repeat':
+                rn1 = guard(lambda: np.asarray(call_fn(case, False, nb_).data))
+                rn2 = guard(lambda: np.asarray(call_fn(case, False, nb_).data))
+                l1 = guard(lambda: call_fn(case, True, db_))
+                l2 = guard(lambda: call_fn(case, True, db_))
+                d2, i2 = fin(l2)
+                d1, i1 = fin(l1)
+                res = [('first call', rn1, d1, i1), ('second identical call', rn2, d2, i2)]
+            elif seq == 'deferred':
+                rn = guard(lambda: np.asarray(call_fn(case, False, nb_).data))
+                l = guard(lambda: call_fn(case, True, db_))
+                # other library calls on the same rasters, computed BEFORE the first lazy result
+                o1 = guard(lambda: call_fn(other, True, db_))
+                fin(o1)
+                pre = dict(case, fn=case.get('pre', 'mean'), passes=1, excludes=None)
+                if 'data2' not in case and case['fn'] not in ('perlin', 'generate_terrain'):
+                    fin(guard(lambda: call_fn(pre, True, db_)))
+                guard(lambda: np.asarray(call_fn(other, False, nb_).data))
+                d, i = fin(l)
+                rno = guard(lambda: np.asarray(call_fn(other, False, make_bands(case, False)).data))
+                do, io = fin(guard(lambda: call_fn(other, True, db_)))
+                res = [('lazy result computed after other calls', rn, d, i), ('interleaved other parameters', rno, do, io)]
+            elif seq == 'chain':
+                pre = dict(case, fn=case['pre'], passes=1, excludes=None)
+                rn = guard(lambda: np.asarray(call_fn(case, False, {'data': call_fn(pre, False, nb_)}).data))
+                l = guard(lambda: call_fn(case, True, {'data': call_fn(pre, True, db_)}))
+                d, i = fin(l)
+                res = [('%s of the lazy %s result' % (case['fn'], case['pre']), rn, d, i)]
+                pl = guard(lambda: call_fn(pre, True, db_).data)
+                if not isinstance(pl, Exception):
+                    pc = guard(lambda: comp(pl))
+                    if not isinstance(pc, Exception) and str(pl.dtype) != str(pc.dtype):
+                        case['_pre_meta_wrong'] = '%s advertises %s, computes %s' % (case['pre'], pl.dtype, pc.dtype)
+            else:   # derived:<how>
+                how = seq.split(':', 1)[1]
+                guard(lambda: np.asarray(call_fn(case, False, nb_).data))          # process the originals first
+                fin(guard(lambda: call_fn(case, True, db_)))
+                rn = guard(lambda: np.asarray(call_fn(case, False, {k: _derive(v, how) for k, v in nb_.items()}).data))
+                l = guard(lambda: call_fn(case, True, {k: _derive(v, how) for k, v in db_.items()}))
+                d, i = fin(l)
+                res = [('call on the %s-derived raster' % how, rn, d, i)]
+            msg = _unchanged(snap_n, nb_)
+            if msg is None and case['fn'] not in SPECTRAL2 + SPECTRAL3 + ['true_color']:
+                # (validate_arrays re-chunks the other bands of a multi-band call in place: chunk layout only, C10)
+                msg = _unchanged(snap_d, {k: v.compute() for k, v in db_.items()})
+            elif msg is None:
+                msg = _unchanged(snap_d, {k: v.compute() for k, v in db_.items()})
+    return res, msg
+
+
+def explore_sequence(ctx, case):
+    ctx.case(case, nontrivial=True)
+    ctx.count('theme/seq/%s/%s' % (case['seq'].split(':')[0], case['fn']))
+    res, msg = run_sequence(case)
+    for label, rn, rd, isd in res:
+        n0 = len(ctx.violations)
+        oracle(ctx, dict({k: v for k, v in case.items()}, H=(rn.shape[0] if hasattr(rn, 'shape') and rn.ndim >= 2 else case['H']),
+                         W=(rn.shape[1] if hasattr(rn, 'shape') and rn.ndim >= 2 else case['W'])), rn, rd, isd)
+        for v in ctx.violations[n0:]:
+            v['what'] = '[sequence %s: %s] %s' % (case['seq'], label, v['what'])
+            v['replay'] = {k: x for k, x in case.items() if not k.startswith('_')}
+            if v['key'] is None and case.get('_pre_meta_wrong'):
+                # the intermediate lazy raster lies about its dtype (that defect class): the second step runs in it
+                v['key'] = KEY_META
+                v['what'] += ' [intermediate: %s]' % case['_pre_meta_wrong']
+    case.pop('_pre_meta_wrong', None)
+    if msg:
+        ctx.violation('oracle', '%s: after the call sequence %s an input raster is no longer what was passed in: %s' % (
+            case['fn'], case['seq'], msg), dict(case))
+
+
+EXTREME = {
+    'f32gap': [2.0 ** 24 + 1, 2.0 ** 24 + 3, 0.1, 0.2, 0.30000000000000004, 1 + 1e-9, 1 - 1e-9, 16777217.0],
+    'tiny': [2.0 ** -30, 2.0 ** -60, 2.0 ** -120, -2.0 ** -100, 3 * 2.0 ** -126, 0.0],
+    'huge': [1e30, -1e30, 3e38, 1e300, -1e300, 1e20],
+}
+
+
+def gen_theme_case(rng, theme, fn=None):
+    """one case of the audit stream; `theme` selects what is unusual about it"""
+    if theme == 'extreme':
+        fn = fn or rng.choice(SINGLE_FNS + SPECTRAL2 + ['arvi', 'true_color'])
+        c = gen_case(rng, fn, rng.randint(3, 7), rng.randint(3, 7))
+        kind = rng.choice(['f32gap', 'tiny', 'huge', 'intbig', 'limits'])
+        H, W = c['H'], c['W']
+        if kind in ('intbig', 'limits'):
+            dt = rng.choice(['int8', 'uint8', 'int16', 'int32', 'uint32', 'int64', 'uint64'])
+            info = np.iinfo(dt)
+            if kind == 'limits':
+                pool = [int(info.max), int(info.max) - 1, int(info.min), int(info.min) + 1, 0, 1]
+            else:
+                pool = [v for v in (2 ** 24 + 1, 2 ** 31 + 5, 2 ** 31 - 1, 2 ** 53 + 1, 2 ** 62 + 3, -(2 ** 31) - 7, 100, 0)
+                        if info.min <= v <= info.max]
+            c['dtype'] = dt
+            for key in ('data', 'data2', 'data3'):
+                if key in c:
+                    c[key] = [[rng.choice(pool) for _ in range(W)] for _ in range(H)]
+        else:
+            dt = rng.choice(['float64', 'float32']) if kind != 'huge' else rng.choice(['float64', 'float32', 'float64'])
+            c['dtype'] = dt
+            pool = [v for v in EXTREME[kind] if dt == 'float64' or abs(v) < 3.4e38]
+            for key in ('data', 'data2', 'data3'):
+                if key in c:
+                    c[key] = [[float(np.dtype(dt).type(rng.choice(pool))) for _ in range(W)] for _ in range(H)]
+        c['kind'] = 'extreme-' + kind
+        # thresholds equal to, and one ulp around, cell values in the cell's own dtype
+        cells = [v for row in c['data'] for v in row]
+        if fn in ('binary', 'reclassify', 'mean') and c['dtype'] in FLT_DT:
+            t = np.dtype(c['dtype']).type
+            v0 = t(rng.choice(cells))
+            around = sorted({float(v0), float(np.nextafter(v0, t(np.inf))), float(np.nextafter(v0, t(-np.inf)))})
+            if fn == 'binary':
+                c['values'] = around[:2] + [float(rng.choice(cells))]
+            elif fn == 'reclassify':
+                c['bins'] = around
+                c['new_values'] = [1.0, 2.0, 3.0][:len(around)]
+            else:
+                c['excludes'] = [around[0], float(v0)]
+        elif fn in ('binary', 'reclassify'):
+            srt = sorted(set(float(v) for v in cells))
+            if fn == 'binary':
+                c['values'] = srt[:2]
+            else:
+                c['bins'] = srt[:4]
+                c['new_values'] = [float(i) for i in range(len(c['bins']))]
+        return c
+    if theme == 'params':
+        fn = fn or rng.choice(['binary', 'reclassify', 'focal_stats', 'convolution_2d', 'apply', 'hotspots', 'mean',
+                               'generate_terrain', 'perlin', 'equal_interval', 'hillshade', 'true_color'])
+        c = gen_case(rng, fn, rng.randint(3, 8), rng.randint(3, 8))
+        c['kind'] = 'params'
+        c['param_as'] = rng.choice(['pyint', 'tuple', 'int32', 'int64', 'uint8', 'float32', 'float64'])
+        if fn == 'binary':
+            # unsorted, duplicates, absent entries, gaps below / inside / above the data range
+            c['values'] = [float(v) for v in rng.sample([4, 1, 1, 3, 99, -7, 2, 2, 0], rng.randint(1, 6))]
+        elif fn == 'reclassify':
+            c['bins'] = [float(v) for v in rng.choice([[10, 0, 5], [5, 5, 5], [0, 5, 5, 10], [-100, 100], [3], [20, 10, 0, -5]])]
+            c['new_values'] = [float(rng.randint(0, 9)) for _ in c['bins']]
+        elif fn == 'focal_stats':
+            c['stats'] = rng.choice([['sum', 'sum'], ['var', 'std', 'range', 'min', 'max', 'mean', 'sum'], ['max', 'min', 'max'],
+                                     ['range']])
+        elif fn in ('convolution_2d', 'apply', 'hotspots'):
+            c['kernel_dtype'] = rng.choice(['int64', 'float32', 'int32', 'uint8'])
+            if fn == 'convolution_2d':
+                c['kernel'] = [[float(rng.randint(0, 3)) for _ in row] for row in c['kernel']]
+        elif fn == 'mean':
+            c['passes'] = rng.choice([0, 0, 1])
+            c['excludes'] = rng.choice([[0.0], [0.0, 0.0], None])
+        elif fn == 'generate_terrain':
+            terrain_params(rng, c)
+            c['seed'] = 0
+            c['zfactor'] = rng.choice([0, 1, -3, 4000.5])
+        elif fn == 'perlin':
+            c['seed'] = 0
+            c['freq'] = rng.choice([[1, 1], [0.5, 3], [5, 1]])
+        elif fn == 'equal_interval':
+            c['k'] = rng.choice([1, 2, 64, 100])
+        elif fn == 'hillshade':
+            c['azimuth'] = rng.choice([0, 360, 0.0, 720, -45])
+            c['angle_altitude'] = rng.choice([0, 0.0, 90, 120])
+        elif fn == 'true_color':
+            c['nodata'] = rng.choice([0, 0.0, -1])
+            c['c'] = rng.choice([0, 0.0, 10.0])
+            c['th'] = rng.choice([0, 0.0, 0.125])
+        return c
+    if theme == 'bigkernel':
+        fn = fn or rng.choice(KERNELLED)
+        H, W = rng.randint(16, 24), rng.randint(18, 30)
+        c = gen_case(rng, fn, H, W, style=rng.choice(['small', 'random', 'rowstrip', 'colstrip']))
+        kr, kc = rng.choice([(9, 15), (13, 13), (15, 9), (11, 17), (5, 17)])       # 100..220 cells
+        c['kernel'] = gen_kernel(rng, H, W, binary=(fn != 'convolution_2d'), force=(kr, kc))
+        c['chunks'] = [composition(rng, H, rng.choice([2, 3, kr // 2, H])), composition(rng, W, rng.choice([2, 3, kc // 2, W]))]
+        if fn == 'apply':
+            c['func'] = rng.choice(['_calc_mean', '_calc_sum', '_calc_max'])
+        if fn == 'focal_stats':
+            c['stats'] = ['mean']
+        c['kind'] = 'bigkernel'
+        return c
+    if theme == 'coords':
+        fn = fn or rng.choice(SURFACE + ['true_color', 'generate_terrain', 'mean', 'convolution_2d'])
+        c = gen_case(rng, fn, rng.randint(2, 8), rng.randint(2, 8))
+        c['layout'] = rng.choice([l for l in LAYOUTS if l['coords'] and (fn != 'true_color' or l['dims'] == ['y', 'x'])])
+        c['res_attr'] = False
+        c['cellsize'] = list(rng.choice([(1e6, 1e6), (1e6, 0.5), (0.001, 0.003), (30.0, 30.0), (1.0 / 3600, 1.0 / 3600)]))
+        c['coord'] = dict(ox=rng.choice([0.0, -180.0, 5e5, -1e7, 179.5]), oy=rng.choice([0.0, -90.0, 4e6, -33.3, 89.0]),
+                          desc_x=rng.random() < 0.3)
+        c['kind'] = 'coords'
+        return c
+    if theme == 'degenerate':
+        fn = fn or rng.choice(ALL_FNS[:-2])
+        H, W = rng.choice([(1, 1), (1, 6), (6, 1), (2, 2), (3, 3), (4, 5)])
+        c = gen_case(rng, fn, H, W)
+        if c['dtype'] not in FLT_DT:
+            c['dtype'] = 'float64'
+        how = rng.choice(['allnan', 'allequal', 'single', 'allinf'])
+        for key in ('data', 'data2', 'data3'):
+            if key in c:
+                if how == 'allnan':
+                    c[key] = [[float('nan')] * W for _ in range(H)]
+                elif how == 'allequal':
+                    c[key] = [[7.0] * W for _ in range(H)]
+                elif how == 'allinf':
+                    c[key] = [[float('inf')] * W for _ in range(H)]
+                else:
+                    c[key] = [[float('nan')] * W for _ in range(H)]
+                    c[key][rng.randrange(H)][rng.randrange(W)] = 5.0
+        if 'kernel' in c:
+            c['kernel'] = gen_kernel(rng, H, W, binary=(fn != 'convolution_2d'))
+        c['chunks'] = gen_chunks(rng, H, W, c['style'])
+        for ck in ('chunks2', 'chunks3'):
+            if ck in c:
+                c[ck] = gen_chunks(rng, H, W, 'random')
+        c['kind'] = 'degenerate-' + how
+        return c
+    if theme == 'memlayout':
+        fn = fn or rng.choice(SINGLE_FNS + SPECTRAL3 + SPECTRAL2 + ['true_color'])
+        c = gen_case(rng, fn, rng.randint(2, 8), rng.randint(2, 8))
+        keys = [k for k in ('data', 'data2', 'data3') if k in c]
+        # vary the layout of EACH argument separately
+        c['memlayout'] = {rng.choice(keys): rng.choice(['F', 'T', 'strided', 'reversed', 'ro'])}
+        if rng.random() < 0.3:
+            c['memlayout'] = {k: rng.choice(['F', 'T', 'strided', 'reversed', 'ro']) for k in keys}
+        c['kind'] = 'memlayout'
+        return c
+    if theme == 'argchunks':
+        # per-argument DIFFERENT chunkings: each argument position in turn, same per-axis maximum, different splits
+        fn = fn or rng.choice(SPECTRAL3 + SPECTRAL2 + ['true_color'])
+        H, W = rng.randint(4, 10), rng.randint(4, 10)
+        c = gen_case(rng, fn, H, W)
+        m = rng.randint(2, 3)
+        base = [composition(rng, H, m), composition(rng, W, m)]
+        keys = [k for k in ('chunks', 'chunks2', 'chunks3') if k in c or k == 'chunks']
+        keys = [k for k in keys if k == 'chunks' or k.replace('chunks', 'data') in c]
+        for k in keys:
+            c[k] = [list(base[0]), list(base[1])]
+        odd = rng.choice(keys)
+        c[odd] = [composition(rng, H, m), composition(rng, W, m)]
+        c['kind'] = 'argchunks-' + odd
+        return c
+    raise ValueError(theme)
+
+
+def gen_sequence_case(rng, seq=None, fn=None):
+    seq = seq or rng.choice(['repeat', 'deferred', 'chain', 'derived:slice', 'derived:step', 'derived:copy', 'derived:astype',
+                             'derived:assign', 'derived:attrs'])
+    if seq == 'chain':
+        fn = fn or rng.choice(['slope', 'aspect', 'curvature', 'hillshade', 'mean', 'convolution_2d', 'apply', 'binary',
+                               'equal_interval', 'hotspots'])
+    elif seq.startswith('derived'):
+        fn = fn or rng.choice(SINGLE_FNS + ['ndvi', 'arvi', 'true_color'])
+    else:
+        fn = fn or rng.choice([f for f in ALL_FNS if f != 'generate_terrain'])
+    c = gen_case(rng, fn, rng.randint(4, 9), rng.randint(4, 9))
+    if 'kernel' in c:
+        c['kernel'] = gen_kernel(rng, 3, 3, binary=(fn != 'convolution_2d'))       # still fits the sliced raster
+        c['chunks'] = gen_chunks(rng, c['H'], c['W'], c['style'], (1, 1))
+    c['seq'] = seq
+    if seq == 'chain':
+        c['pre'] = rng.choice(['mean', 'slope', 'curvature', 'aspect'])
+    if seq == 'deferred':
+        c['pre'] = rng.choice(['mean', 'slope', 'binary'])
+        if fn == 'binary':
+            c['values'] = [1.0, 2.0]
+        v = gen_variants(rng, c) if fn in PARAM_FNS else [{}, {}]
+        c['other'] = v[1]
+    if seq == 'derived:astype' and c['dtype'] == 'float16':
+        c['dtype'] = 'float64'
+    return c
+
+
+def theme_stream(ctx, rng, quick):
+    plan = [('extreme', 8, 80), ('params', 8, 80), ('bigkernel', 1, 12), ('coords', 4, 40), ('degenerate', 5, 60),
+            ('memlayout', 4, 40), ('argchunks', 3, 30)]
+    for theme, nq, nt in plan:
+        for _ in range(nq if quick else nt):
+            c = gen_theme_case(rng, theme)
+            ctx.count('theme/%s' % c['kind'].split('-')[0])
+            explore(ctx, c, None)
+    for _ in range(9 if quick else 90):
+        explore_sequence(ctx, gen_sequence_case(rng))
+
+
 # ------------------------------------------------------------------ several lazy results computed together
 PARAM_FNS = ['reclassify', 'binary', 'equal_interval', 'hillshade', 'mean', 'convolution_2d', 'apply', 'focal_stats',
              'hotspots', 'savi', 'true_color', 'perlin', 'generate_terrain']
@@ -2145,6 +2553,10 @@ def run(ctx, heavy=False):
     run_probes(ctx, probe_cases(rng, quick))
     # 4. (appended last) decimal-grid rasters at the thresholds derived from global scalars in the raster's precision
     threshold_stream(ctx, rng, quick)
+    # 5. (appended last) theme audit: extreme magnitudes and thresholds one ulp around cells, parameter containers /
+    # orders / falsy values, kernels of 100+ cells, coordinate origins and spacings, degenerate rasters, memory layouts,
+    # per-argument chunkings, and call sequences (repeat, deferred compute, chained lazy results, derived rasters)
+    theme_stream(ctx, rng, quick)
 
 
 def search(ctx):
@@ -2195,6 +2607,9 @@ def replay_case(ctx, case):
     if 'variants' in case:
         case = {k: v for k, v in case.items() if k != 'failing_variant'}
         explore_together(ctx, case)
+        return
+    if 'seq' in case:
+        explore_sequence(ctx, case)
         return
     explore(ctx, case, pending)
     check_model(ctx, pending)
